@@ -1053,6 +1053,13 @@ def _decorate_with_invariants(func: CallableT, is_init: bool) -> CallableT:
                     ).format(func, param_names, args, kwargs)
                 ) from err
 
+            if func == object.__init__ and type(instance).__new__ is not object.__new__:
+                # ``object.__init__`` ignores the arguments of the constructor if the class overrides ``__new__``,
+                # but not ``__init__``. This wrapper counts as an override of ``__init__``, so that
+                # ``object.__init__`` would reject the arguments of a subclass which defines only ``__new__``.
+                # Hence they must not be passed on.
+                args, kwargs = (instance,), {}
+
             # We need to disable the invariants check during the constructor.
 
             in_progress = _IN_PROGRESS.get()
